@@ -38,6 +38,11 @@ func main() {
 	debug.SetMaxStack(256 << 20)
 	log.SetOutput(io.Discard) // go-openapi/spec logs resolution errors on the standard logger
 
+	// every process starts from the same non-initial state (see props.Prelude); free-running race passes skip it
+	preludeCalls := 0
+	if !strings.Contains(*args, "mode=race") {
+		preludeCalls = props.Prelude()
+	}
 	if *replay != "" {
 		b, err := os.ReadFile(*replay)
 		if err != nil {
@@ -97,6 +102,7 @@ func main() {
 		}
 	}
 	t0 := time.Now()
+	c.Bounds["prelude_calls"] = preludeCalls
 	ch.Run(c)
 	res := c.Result(time.Since(t0).Seconds())
 	b, err := json.Marshal(res)
